@@ -115,7 +115,12 @@ func BuildDependency(argumentListContext *parser.ArgumentListContext) *core_doma
 }
 
 func ConvertToJDep(result string) *core_domain.CodeDependency {
-	withQuote := strings.ReplaceAll(result, "'", "")
-	split := strings.Split(withQuote, ":")
+	// 'group:artifact:version' or "group:artifact:version"
+	withoutQuote := strings.ReplaceAll(strings.ReplaceAll(result, "'", ""), "\"", "")
+	split := strings.Split(withoutQuote, ":")
+	if len(split) < 2 {
+		// not a group:artifact notation (a project reference, a variable): skipped
+		return nil
+	}
 	return core_domain.NewCodeDependency(split[0], split[1])
 }
